@@ -53,6 +53,7 @@ func init() {
 		{"xml", enumXML, checkXML},
 		{"csv", enumCSV, checkCSV},
 		{"held", enumHeld, checkHeld},
+		{"unchanged", enumUnchanged, checkUnchanged},
 		{"malformed", enumMalformed, checkMalformed},
 		// the serialiser section is by far the most expensive one (every from_* decode costs
 		// ~1.5 ms in fq); it runs last so that a deadline can only cut this section
